@@ -85,33 +85,36 @@ theorem stepKind_invP2 {inp : RunInput} {s s' : Sys} {perm : List Name} (hD : In
     (h2 : Inv2 inp s)
     (h3 : Inv3 inp s)
     (ha4 : ∀ n nd, s.nodes n = some nd → nd.pc.yielded1 = true → nd.status = .none → s.susp = some (.node n))
-    (hdf : ∀ n nd, s.nodes n = some nd → DelivF inp s nd)
     (h : InvP2 inp s) (k : StepKind inp s s' perm) : InvP2 inp s' := by
   rcases k with ⟨a, b⟩ | ⟨n, nd, a, b, c, _, e⟩ | ⟨n, nd, a, b, c, e⟩ | ⟨a, b⟩
   · exact dtick_invP2 h2.inv1 ha4 a h b
-  · exact invP2_select hD.den hD.nodeS h2 hG.dc a b c h (hdf n nd c) e
+  · have hl : nd.pc.inLoop = false := by
+      obtain ⟨nd', hn', hpc⟩ := h2.inv1.sp n b
+      rw [c] at hn'; cases hn'
+      rcases hpc with e' | e' <;> (rw [e']; rfl)
+    exact invP2_select hD.den hD.nodeS h2 hG.dc a b c h (hD.delivF h2.inv1 c hl) e
   · exact invP2_result h3 a b c h e
   · exact h.back a b
 
-theorem reach_invP2 {inp : RunInput} [NoFailDeliver inp] {s : Sys} (h : Reach inp s) : InvP2 inp s := by
+theorem reach_invP2 {inp : RunInput} {s : Sys} (h : Reach inp s) : InvP2 inp s := by
   induction h with
   | init => intro n nd hn; simp [init] at hn
   | @next s0 s1 c hr hs ih =>
     cases c with
     | main perm =>
       exact stepKind_invP2 (reach_invDen hr) (reach_invG hr) (reach_inv2 hr) (reach_inv3 hr)
-        (fun n nd a b c => ((reach_invL hr).a4 n nd a b c).1) (fun _ nd _ => DelivF.noFail _ nd) ih (serialStep_kind (reach_inv2 hr) (reach_inv3 hr) hs)
+        (fun n nd a b c => ((reach_invL hr).a4 n nd a b c).1) ih (serialStep_kind (reach_inv2 hr) (reach_inv3 hr) hs)
     | take w => cases hs
     | done w => cases hs
 
-theorem preach_invP2 {inp : RunInput} [NoFailDeliver inp] {s : Sys} (h : PReach inp s) : InvP2 inp s := by
+theorem preach_invP2 {inp : RunInput} {s : Sys} (h : PReach inp s) : InvP2 inp s := by
   induction h with
   | init => intro n nd hn; simp [init] at hn
   | @next s0 s1 c hr hs ih =>
     cases c with
     | main perm =>
       exact stepKind_invP2 (preach_invDen hr) (preach_invG hr) (preach_inv hr).1 (preach_inv hr).2
-        (fun n nd a b c => ((preach_invP hr).a4 n nd a b c).1) (fun _ nd _ => DelivF.noFail _ nd) ih (mainStep_kind (preach_inv hr).2 hs)
+        (fun n nd a b c => ((preach_invP hr).a4 n nd a b c).1) ih (mainStep_kind (preach_inv hr).2 hs)
     | take w => exact ih.same (takeStep_nodes hs)
     | done w => exact ih.same (doneStep_nodes hs)
 
